@@ -357,6 +357,12 @@ func addUcases(o *output, stream string, strat int, sys resolve.System, cl resol
 			}
 			sb, oks := nodeVersion(resolveWith(cl, m0, same), u.Name)
 			indep = byReq || (oks == okb && sb == base)
+			if known && base == nw && u.Transitive {
+				// a management pin to the version the package resolves to anyway once the sibling overrides of
+				// the same patch are applied (the pin was needed before them): no movement of its own, treated
+				// like an update that depends on the others
+				indep = false
+			}
 		}
 		s := fmt.Sprintf("{| u_strategy := %d; u_level := %s; u_known := %v; u_cmp := %s; u_dif := %s; u_op := %d; u_listed := %v; u_honoured := %v; u_indep := %v; u_consistent := %v |}",
 			strat, levelCoq(lv), known, cmpCoq(cmp), diffCoq(dif), op, !(known && cmp == 0 && base != nw), honoured, indep, cons)
@@ -387,6 +393,26 @@ func streamUpdate(o *output, r *rand.Rand, n int) {
 			dupName = addDuplicateDeclarations(r, u, &m)
 		}
 		cfg := genConfig(r, u)
+		if i%5 == 2 {
+			// a frozen (level none) package whose declared version is a different spelling of a listed one
+			for k := range m.Deps {
+				if alt := respell(r, u, m.Deps[k].Name, m.Deps[k].Req); alt != "" {
+					m.Deps[k].Req = alt
+					cfg.Set(m.Deps[k].Name, upgrade.None)
+					count("update_frozen_respelled", "yes")
+					break
+				}
+			}
+		} else if i%5 == 3 {
+			// the same respelling, not frozen
+			for k := range m.Deps {
+				if alt := respell(r, u, m.Deps[k].Name, m.Deps[k].Req); alt != "" {
+					m.Deps[k].Req = alt
+					count("update_respelled", "yes")
+					break
+				}
+			}
+		}
 		if dupName != "" && r.Intn(4) != 0 {
 			// the declarations lie a minor or major step apart: a level below major makes their targets differ
 			cfg.Set(dupName, pick(r, []upgrade.Level{upgrade.Minor, upgrade.Minor, upgrade.Patch}))
@@ -446,7 +472,7 @@ func runUpdateCase(o *output, u *universe, m manifestSpec, cfg upgrade.Config, i
 	var res result.Result
 	var uerr error
 	oc, pmsg := guarded(callLimit, func() {
-		res, uerr = guidedremediation.Update(options.UpdateOptions{Manifest: path, ResolveClient: cl, IgnoreDev: ignoreDev, UpgradeConfig: cfg})
+		res, uerr = guidedremediation.Update(options.UpdateOptions{Manifest: path, ResolveClient: cl, IgnoreDev: ignoreDev, UpgradeConfig: viaStrings(cfg)})
 	})
 	obs := "SuggPanic"
 	var ups []result.PackageUpdate
@@ -568,4 +594,32 @@ func addDuplicateDeclarations(r *rand.Rand, u *universe, m *manifestSpec) string
 		count("duplicate_declaration", kind)
 	}
 	return name
+}
+
+// respell returns a differently written version string that compares equal to a listed version of the
+// package (1.0 / 1.0.0 / 1.0.0.Final / 1.0-ga), preferring the declared one; "" if there is none.
+func respell(r *rand.Rand, u *universe, name, declared string) string {
+	vs := u.versionStrings(name)
+	cands := append([]string{declared}, vs...)
+	for _, v := range cands {
+		listed := false
+		for _, w := range vs {
+			listed = listed || w == v
+		}
+		if !listed || strings.ContainsAny(v, "[(,$") {
+			continue
+		}
+		alts := []string{v + ".0", v + "-ga", v + ".Final", strings.TrimSuffix(v, ".0"), strings.TrimSuffix(v, ".Final"), strings.TrimSuffix(v, "-ga")}
+		r.Shuffle(len(alts), func(a, b int) { alts[a], alts[b] = alts[b], alts[a] })
+		for _, a := range alts {
+			dup := false
+			for _, w := range vs {
+				dup = dup || w == a
+			}
+			if a != v && a != "" && !dup && semver.Maven.Compare(a, v) == 0 {
+				return a
+			}
+		}
+	}
+	return ""
 }
